@@ -13,7 +13,7 @@ ENGINE = {'name': 'health',
  'serves': ['C11'],
  'rule': 'loopback upstream listeners switchable between refusing and accepting; scripted histories (connect with retries, close, switch, active '
          'probe, wait for expiry) for fail_duration 150/250/400 ms x max_fails 0..3, passive checks off, fail_duration 0, two-peer upstreams, '
-         'max_connections and unhealthy_connection_count limits, active and passive checks combined (outage with remembered dial failures, active check marks the peer down and up again while they are remembered, expiry, second outage; fail_duration 600..900 ms), plus VERIF_N random histories of 5..10 steps (5..20 events) over 2..3 upstreams, '
+         'max_connections and unhealthy_connection_count limits, the grid max_connections set/unset x unhealthy_connection_count set/unset x fail_duration set/unset through Handler.Provision with four connections against the configured limit, dial failures injected with countFailure while the upstream is already out of rotation (staggered by 60..120 ms; the window must run from the latest one), active and passive checks combined (outage with remembered dial failures, active check marks the peer down and up again while they are remembered, expiry, second outage; fail_duration 600..900 ms), plus VERIF_N random histories of 5..10 steps (5..20 events) over 2..3 upstreams, '
          'fail_duration 120..400 ms, try_duration 0/100/200 ms, try_interval 30 ms, first and round_robin; after every step the counters '
          '(fails, unhealthy, numConns) of every peer and available() of every upstream are read at an instant at least 45 ms away from every '
          'event and every expiry; retry scenarios with all upstreams refusing (try_duration 0/100/160/250 ms), upstreams dropping out one by one, '
@@ -24,7 +24,7 @@ ENGINE = {'name': 'health',
                   '(a scenario whose oracle fails is re-run once before it is reported)'],
  'modelled': ['modules/l4proxy/proxy.go: Handle retry loop, countFailure (increment now / decrement after fail_duration), where connections are counted (gen/Shape.v)',
               'modules/l4proxy/loadbalancing.go: tryAgain', 'modules/l4proxy/healthchecks.go: doActiveHealthCheck -> setHealthy',
-              'modules/l4proxy/upstream.go: peer counters, available/healthy/full via model/Select.v, Provision defaults for max_fails and unhealthy_connection_count',
+              'modules/l4proxy/upstream.go: effective MaxConnections (max_connections, else unhealthy_connection_count, independent of fail_duration), peer counters, available/healthy/full via model/Select.v, Provision defaults for max_fails and unhealthy_connection_count',
               'not modelled: the ticker of the active checker, context cancellation in tryAgain, placeholders in dial addresses'],
  'assumptions': ['fail_duration >= 0 (a negative duration makes the forgetter fire at once)',
                  'max_connections: connections are admitted one at a time (the availability test and the increment are not one atomic step in the code) '
